@@ -647,6 +647,14 @@ def dec_val(w: str):
         return unhx(w[1:])
     if w[0] == "b":
         return C.unhx(w[1:])
+    # numbers and booleans handed to set_option (from_beacon_config itself passes ints): `f'"{value}"'` is str(value); the
+    # model receives str(value) as the text, the real code the Python object
+    if w[0] == "i":
+        return int(unhx(w[1:]))
+    if w[0] == "t":
+        return {"True": True, "False": False}[unhx(w[1:])]
+    if w[0] == "f":
+        return float(unhx(w[1:]))
     raise RuntimeError("bad value word " + w)
 
 
@@ -1022,7 +1030,9 @@ def _gen_model(tier, rng, shard, nshards):
     # ---- value_to_string
     nv = (20000 if thorough else 2000) // nshards
     for _ in range(nv):
-        if rng.random() < 0.5:
+        if rng.random() < 0.05:
+            yield "v2s", "v2s " + num_val(rng)
+        elif rng.random() < 0.5:
             n = rng.choice([0, 1, 2, 3, 5])
             s = "".join(rng.choice(['"', "\\", "'", "a", "é", "日", "\n", ";", "\\'", '\\"', "x"]) for _ in range(n))
             yield "v2s", "v2s s" + hx(s)
@@ -1106,6 +1116,14 @@ ODD_NAMES = ["comment_dns_resolver", "dns_idle", "uri", "header", "parameter", "
 ODD_STR = ['a\\', '\\"', "a\\'b", '"', "\\\\", "plain", "", "dé", "default", '"default"', ";", "{", "set", "a b", "\\x41", "\\u0041", "\\q"]
 
 
+NUM_VALS = [0, 1, True, False, 1.0, 0.0, -1, 2, 2.0, 10, 60000, 0.5, -0.0, 1e3]
+
+
+def num_val(rng) -> str:
+    v = rng.choice(NUM_VALS)
+    return ("t" if isinstance(v, bool) else "i" if isinstance(v, int) else "f") + hx(str(v))
+
+
 def odd_val(rng) -> str:
     if rng.random() < 0.6:
         return "s" + hx(rng.choice(ODD_STR))
@@ -1126,7 +1144,7 @@ def odd_calls(rng, depth=2, cls="C2Profile"):
             out.append(f"kp:{nm(name)}:{n}")
             out += [odd_val(rng) for _ in range(2 * n)]
         elif r == 2:
-            out.append(f"so:{nm(name)}:{odd_val(rng)}")
+            out.append(f"so:{nm(name)}:{num_val(rng) if rng.random() < 0.3 else odd_val(rng)}")
         elif r == 3:
             n = rng.choice([0, 1, 2])
             out.append(rng.choice([f"pr:{nm(name)}:{n}", f"hd:{n}", f"pm:{n}"]))
@@ -1175,6 +1193,10 @@ def handmade_calls():
     yield [f"kb:{nm('dns_beacon')}", f"C{dns}", f"so:{nm('comment_dns_resolver')}:bx00", "E", f"kv:{nm('sleeptime')}:s{hx('5')}", "E"]
     yield ["E"]
     yield [f"kv:{nm('sleeptime')}:s{hx('5')}", f"so:{nm('jitter')}:bx41", "E"]
+    # numbers / booleans that compare (and hash) equal but format differently, in one call sequence
+    yield [f"so:{nm('sleeptime')}:i{hx('1')}", f"so:{nm('jitter')}:t{hx('True')}", f"so:{nm('x')}:f{hx('1.0')}", "E"]
+    yield [f"so:{nm('jitter')}:f{hx('0.0')}", f"so:{nm('sleeptime')}:t{hx('False')}", f"so:{nm('x')}:i{hx('0')}", f"so:{nm('y')}:f{hx('-0.0')}", "E"]
+    yield [f"so:{nm('maxdns')}:f{hx('2.0')}", f"so:{nm('sleeptime')}:i{hx('2')}", f"so:{nm('jitter')}:s{hx('2')}", "E"]
     yield [f"cb:{nm('http_get')}", f"C{CLS_IDX['HttpGetBlock']}", f"kv:{nm('variant')}:s{hx('default')}", f"kv:{nm('uri')}:s{hx('/x')}", "E", "E"]
     yield [f"ne:{nm('stage')}", f"C{CLS_IDX['StageBlock']}", "E", f"ne:{nm('post_ex')}", f"C{CLS_IDX['PostExBlock']}", f"kv:{nm('pipename')}:sx61", "E", "E"]
 
@@ -1472,7 +1494,14 @@ def impl(stream, line):
             c2p.Reconstructor = saved
     if stream == "build":
         prof = profile_from_calls(w[1:])
-        return f"tree {' '.join(enc_any_tree(prof.tree))} | {outcome(prof)} | {text_and_reparse(prof)}"
+        res = f"tree {' '.join(enc_any_tree(prof.tree))} | {outcome(prof)} | {text_and_reparse(prof)}"
+        if any(x.rsplit(":", 1)[-1][:1] in "itf" and x[:3] == "so:" for x in w[1:]):
+            # equivalent call sequences: a number / boolean handed to set_option is formatted as str(value), so the same calls with
+            # the value given as that text build the same tree (independent of the model; judged by `oracle`)
+            twin = profile_from_calls([("so:" + x.split(":")[1] + ":s" + x.split(":")[2][1:]) if x[:3] == "so:" and x.split(":")[2][:1] in "itf"
+                                       else x for x in w[1:]])
+            res += " | num=" + C.tf(same_tree(prof.tree, twin.tree) and prof.tree == twin.tree)
+        return res
     if stream == "both":
         try:
             p1 = C2Profile.from_text(unhx(w[1]))
@@ -1602,6 +1631,8 @@ def oracle(stream, line, out):
         # the recorded finding: a builder-made comment_dns_resolver statement makes as_dict raise and does not re-parse
         if _has_known_label(stream, line) and KNOWN_LISTED and ("| exc AttributeError |" in out):
             return False
+        if " | num=" in out:
+            return out.endswith(" | num=T")
         return None
     return None
 
